@@ -1,5 +1,9 @@
 (* C20 driver.
    model img <fmt>        stdin: "<w> <h> <v0> <v1> ..."   -> hex of the file bytes, or "OOB <index>"
+   model imgpat <fmt>     stdin: "<w> <h> <seed>"   (pattern-filled buffer, see harness) -> "<length> <md5 of the file bytes>" or "OOB <index>"
+                          The bytes are produced from the extracted index list (img_reads comp_sel), header and le_bytes with an
+                          array lookup per index instead of the model's list lookup (linear); in mode img both ways are computed
+                          and compared.
    model trace            stdin: "T <pname|-> <pid> <id,id,...|-> { | <thread name|TID>#<thread id> ev ev ... }"
                                  threads in the order they started; the id list is the order of the map entries in the file;
                                  the recorder's map is built by the extracted reg_run (threads with equal ids share a list)
@@ -20,6 +24,29 @@ let fmt_of_string = function
 let hex_of_str l =
   let b = Buffer.create 256 in
   List.iter (fun c -> Buffer.add_string b (Printf.sprintf "%02x" (int_of_n c))) l; Buffer.contents b
+exception Oob of int
+(* header ++ bytes of inp[i] for the model's index list ++ "\n", with O(1) lookups *)
+let fast_write f w h (inp : n array) : string =
+  let b = Buffer.create 65536 in
+  let add l = List.iter (fun c -> Buffer.add_char b (Char.chr (int_of_n c))) l in
+  add (header f w h);
+  let cs = (let rec len = function O -> 0 | S k -> 1 + len k in len f.f_csize) in
+  let count = ref 0 in
+  List.iter (fun i -> let k = int_of_n i in
+              if k >= Array.length inp then raise (Oob k) else begin
+                (* the bytes of the component: natively (fast), checked against the extracted le_bytes on the first
+                   components and on every 61st one *)
+                let v = int_of_n inp.(k) in
+                let pos = Buffer.length b in
+                for j = 0 to cs - 1 do Buffer.add_char b (Char.chr ((v lsr (8 * j)) land 255)) done;
+                if !count < 64 || !count mod 61 = 0 then begin
+                  let ref_bytes = string_of_str (le_bytes f.f_csize inp.(k)) in
+                  if Buffer.sub b pos cs <> ref_bytes then failwith "native byte split differs from Model.le_bytes"
+                end;
+                incr count
+              end) (img_reads comp_sel f w h);
+  Buffer.add_char b '\n';
+  Buffer.contents b
 let opt s = if s = "-" then None else Some (str_of_string s)
 let parse_ev tok = match String.split_on_char ':' tok with
   | ["B"; name; cat; ts] -> { e_kind = KBegin; e_name = str_of_string name; e_cat = opt cat; e_value = N0; e_time = n ts; e_util = [] }
@@ -41,9 +68,28 @@ let () =
     | "img" ->
       (match toks line with
        | w :: h :: vals ->
-         (match writeImage (fmt_of (fmt_of_string Sys.argv.(2))) (n w) (n h) (List.map n vals) with
-          | WBytes b -> print_endline (hex_of_str b)
-          | WOob i -> print_endline ("OOB " ^ string_of_int (int_of_n i)))
+         let f = fmt_of (fmt_of_string Sys.argv.(2)) and inp = List.map n vals in
+         let fast = (try Some (fast_write f (n w) (n h) (Array.of_list inp)) with Oob _ -> None) in
+         (match writeImage f (n w) (n h) inp with
+          | WBytes b ->
+            let hx = hex_of_str b in
+            let same = (match fast with Some s -> s = string_of_str b | None -> false) in
+            print_endline (if same then hx else "FASTPATH-MISMATCH " ^ hx)
+          | WOob i -> print_endline ((if fast = None then "" else "FASTPATH-MISMATCH ") ^ "OOB " ^ string_of_int (int_of_n i)))
+       | _ -> print_endline "bad case")
+    | "imgpat" ->
+      (match toks line with
+       | [w; h; seed] ->
+         let fid = Sys.argv.(2) in
+         let f = fmt_of (fmt_of_string fid) in
+         let wi = int_of_string w and hi = int_of_string h and sd = int_of_string seed in
+         let pc = int_of_n f.f_pixcomp in
+         let bytes = (fid = "PPM" || fid = "PGM") in
+         let inp = Array.init (wi * hi * pc) (fun i ->
+             n_of_int (if bytes then (sd + 37 * i + 101 * (i / 251)) land 255 else 0x3f800000 + sd + i)) in
+         (try let s = fast_write f (n w) (n h) inp in
+            print_endline (string_of_int (String.length s) ^ " " ^ Digest.to_hex (Digest.string s))
+          with Oob k -> print_endline ("OOB " ^ string_of_int k))
        | _ -> print_endline "bad case")
     | "trace" ->
       (match toks line with
